@@ -243,4 +243,6 @@ def line_alphabet() -> list[str]:
         "", " ", "a", "    a", "\ta", "> a", ">", "> ", ">\t", ">>", "- a", "-", "- ", "1. a", "1.", "# a", "#", "---", "***",
         "===", "```", "~~~", "``` x", "<div>", "</div>", "<!--", "[a]: /u", "[a]: /u 't", "a|b", "-|-", "|a|", "|-|", ":-:|--",
         "> a|b", "> -|-", "  - a", "   > a", "\\", "*a", "a*", "`", "[a]", "[a](", "![a](b)", "<a", "&amp;", "  ",
+        # characters that str predicates accept but the ASCII tests of the parser do not (isdigit / isspace / isalpha)
+        "\u00b9. a", "\u2461) a", "\u0663. a", "1\u00b3. a", "```\u00a0", "\u00a0\u3000",
     ]
